@@ -84,7 +84,9 @@ def select_nodes(mesh, sel):
 def _select_nodes(mesh, sel):
     coord = mesh.coord
     t = sel["type"]
-    tol = 1e-9
+    # tolerance relative to the size of the mesh (the scenarios are run at length scales 1e-9 .. 1e3)
+    used = coord[mesh.nodes]
+    tol = 1e-9 * float(np.max(used.max(axis=0) - used.min(axis=0)))
     if t == "concat":
         # np.concatenate([nodes_a, nodes_b]) as users write it: shared nodes appear twice
         return np.concatenate([np.asarray(_select_nodes(mesh, s), dtype=int) for s in sel["parts"]])
@@ -290,6 +292,28 @@ def run_sequence(c):
                 elif kind == "set_coord":
                     m = simu.mesh
                     m.coord = m.coord * float(op["scale"]) + np.asarray(op["shift"], dtype=float)
+                elif kind == "symmetry":
+                    simu.mesh.Symmetry(tuple(op["point"]), tuple(op["n"]))
+                elif kind == "query":
+                    # otherwise independent public calls on the same mesh/simulation objects: point location and
+                    # evaluation, measures, normals, assembly.  Their own results belong to other properties;
+                    # here only their side effects on later loads matter.
+                    m = simu.mesh
+                    used = m.coord[m.nodes]
+                    lo, hi = used.min(axis=0), used.max(axis=0)
+                    pts = np.array([lo + (hi - lo) * np.array(w) for w in ((0.5, 0.5, 0.5), (0.25, 0.6, 0.5), (0.8, 0.3, 0.5))])
+                    for q in op.get("what", ["evaluate", "measure", "normals", "assemble"]):
+                        try:
+                            if q == "evaluate":
+                                m.Evaluate_dofsValues_at_coordinates(pts, np.zeros(m.Nn))
+                            elif q == "measure":
+                                _ = m.area if m.dim == 2 else m.volume
+                            elif q == "normals":
+                                m.Get_normals(m.nodes)
+                            elif q == "assemble":
+                                simu.Get_K_C_M_F()
+                        except Exception as qe:
+                            res.setdefault("query_errors", []).append("%s: %s" % (q, type(qe).__name__))
                 elif kind == "set_mesh":
                     other = build_mesh(op["mesh"]).copy()
                     simu.mesh = other             # the setter re-initialises the boundary conditions
